@@ -239,6 +239,29 @@ fn run_strings(id: String, seed: u64, kind: &'static str, n: usize, out: &mut Ca
                     }
                 }
             }
+            // unknown columns next to real ones under every LIMIT / OFFSET / WHERE / ORDER BY combination: the envelope must stay
+            // rectangular and the unknown column all NULL
+            for (sql, limit) in [
+                ("SELECT id, no_such_column FROM t LIMIT 2", Some(2u64)),
+                ("SELECT no_such_column, id FROM t LIMIT 7 OFFSET 3", Some(7)),
+                ("SELECT no_such_column FROM t LIMIT 3", Some(3)),
+                ("SELECT no_such_column FROM t LIMIT 3 OFFSET 119", Some(3)),
+                ("SELECT id, no_such_column AS x FROM t WHERE id < 50 LIMIT 5", Some(5)),
+                ("SELECT id, no_such_column FROM t ORDER BY id DESC LIMIT 4", Some(4)),
+                ("SELECT id, no_such_column FROM t ORDER BY id LIMIT 4 OFFSET 118", Some(4)),
+                ("SELECT id, no_such_column, s_dict FROM t WHERE id >= 100", None),
+                ("SELECT i_u8, COUNT(no_such_column) FROM t LIMIT 3", Some(3)),
+            ] {
+                judge(sql, None, limit, "construct:unknown_column_with_limit", out, &db);
+                if let Ok(q) = db.query_opts(sql, false, true) {
+                    if let Some((_, c)) = q.cols.iter().find(|c| c.0 == "no_such_column" || c.0 == "x") {
+                        out.eval(1);
+                        if c.iter().any(|v| !v.is_null()) {
+                            out.fail(Failure::new("envelope", "unknown_column_not_null", "unknown_column", format!("{}: the unknown column has non-NULL cells", sql), json!({"sql": sql})));
+                        }
+                    }
+                }
+            }
             out.sample(json!({"unsupported_constructs_tried": UNSUPPORTED.len(), "first": UNSUPPORTED.iter().take(5).collect::<Vec<_>>()}));
         }
         "grammar" => {
@@ -277,7 +300,9 @@ fn run_strings(id: String, seed: u64, kind: &'static str, n: usize, out: &mut Ca
                     let nsel = 1 + rng.below(4);
                     let mut items = Vec::new();
                     for _ in 0..nsel {
-                        let c = rng.pick(&pg.cols).clone();
+                        // now and then a column that exists nowhere (reads as NULL): added after seed C12d, whose all-NULL
+                        // column ignored LIMIT/OFFSET in the column view - unknown columns were only ever selected alone
+                        let c = if rng.chance(0.12) { "no_such_column".to_string() } else { rng.pick(&pg.cols).clone() };
                         let item = match rng.below(4) {
                             0 => format!("{} + {}", quote_style(&c, &mut rng), literal_form(&mut rng)),
                             1 => format!("({})", quote_style(&c, &mut rng)),
